@@ -223,3 +223,26 @@ Theorem C06_joined_text_not_a_literal :
     parse_ip_c (join_host_port (ip_text ip_str_c a z) port) = None.
 Proof. exact parse_ip_c_joined. Qed.
 Print Assumptions C06_joined_text_not_a_literal.
+
+(* ------------------------------------------------------------------ histories on one RegConfig
+   Checks interleaved with configuration reloads, the resolver free to answer differently at every call:
+   the result of the n-th call is the function applied to the policy installed at that time and that
+   call's own inputs — nothing earlier calls did (admitted strings, earlier policies) can influence it. *)
+Theorem C06_history_stateless :
+  forall parse_ip resolve_at ip_str re_match pre pol n s,
+    run_history parse_ip resolve_at ip_str re_match pol n (pre ++ [HCheck s]) =
+    run_history parse_ip resolve_at ip_str re_match pol n pre ++
+    [parse_or_resolve parse_ip (resolve_at (n + length pre)%nat) ip_str re_match (policy_after pol pre) s].
+Proof. exact history_stateless. Qed.
+Print Assumptions C06_history_stateless.
+
+Theorem C06_history_accepted_under_current_policy :
+  forall parse_ip resolve_at ip_str re_match pre pol n s out lk,
+    last (run_history parse_ip resolve_at ip_str re_match pol n (pre ++ [HCheck s])) (None, false) = (Some out, lk) ->
+    exists host port a z,
+      split_host_port s = Some (host, port) /\ port_ok port = true /\
+      dom_blocked re_match (policy_after pol pre) host = false /\
+      resolve_at (n + length pre)%nat host = Some (a, z) /\ valid_ip a = true /\
+      blocked (policy_after pol pre) a = false /\ out = join_host_port (ip_text ip_str a z) port.
+Proof. exact history_accepted_under_current_policy. Qed.
+Print Assumptions C06_history_accepted_under_current_policy.
